@@ -1371,6 +1371,27 @@ fn all_plans(max_len: usize) -> Vec<Vec<bool>> {
 }
 
 pub fn generate(rng: &mut Rng, tier: Tier, emit: &mut dyn FnMut(String)) {
+    // The `wire` cases (a real Session against a mock cluster each) are slow; the runner cuts the case list into
+    // contiguous chunks, one per core: spread them evenly over the whole list.
+    let mut all: Vec<String> = Vec::new();
+    generate_all(rng, tier, &mut |l| all.push(l));
+    let (slow, fast): (Vec<String>, Vec<String>) = all.into_iter().partition(|l| l.starts_with("wire "));
+    let every = if slow.is_empty() { usize::MAX } else { (fast.len() / slow.len()).max(1) };
+    let mut slow_it = slow.into_iter();
+    for (i, l) in fast.into_iter().enumerate() {
+        if i % every == 0 {
+            if let Some(w) = slow_it.next() {
+                emit(w);
+            }
+        }
+        emit(l);
+    }
+    for w in slow_it {
+        emit(w);
+    }
+}
+
+fn generate_all(rng: &mut Rng, tier: Tier, emit: &mut dyn FnMut(String)) {
     let quick = tier == Tier::Quick;
     let pols = [Pol::Default, Pol::Downgrading, Pol::Fallthrough];
 
@@ -1593,31 +1614,57 @@ pub fn generate(rng: &mut Rng, tier: Tier, emit: &mut dyn FnMut(String)) {
     }
     // (f) frame level, end to end (harness/src/e2e/retry.rs with UNPREPARED answers): a real Session against the mock
     //     cluster; the k-th statement frame of a request is answered with the k-th outcome of its script
-    for i in 0..(if quick { 160 } else { 1600 }) {
+    for i in 0..(if quick { 200 } else { 2000 }) {
         let n = 1 + rng.below(3);
-        let pol = *rng.pick(&["def", "def", "down", "fall"]);
+        let pol = *rng.pick(&["def", "def", "down", "down", "fall"]);
         let idem = if i % 3 == 2 { 1 } else { 0 };
-        let kind = *rng.pick(&["exec", "exec", "batch", "batch", "query", "qvals", "qvals", "batchv", "batchv"]);
-        let via = if i % 4 == 1 && kind != "qvals" && kind != "batchv" { "caching" } else { "session" };
-        let cl = if pol == "def" && rng.chance(1, 8) { *rng.pick(&["serial", "localserial"]) } else { "q" };
-        let n_req = 3 + rng.below(3);
+        let kind = *rng.pick(&["exec", "exec", "batch", "batch", "query", "qvals", "qvals", "batchv", "batchv", "itere", "itere", "iterq", "itere"]);
+        let iter_kind = kind == "itere" || kind == "iterq";
+        let via = if i % 4 == 1 && !iter_kind && kind != "qvals" && kind != "batchv" { "caching" } else { "session" };
+        // the consistency matters on the wire: the downgrading policy lowers ALL / EACH_QUORUM
+        let cl = if pol == "def" && rng.chance(1, 8) {
+            *rng.pick(&["serial", "localserial"])
+        } else if pol == "down" && rng.chance(2, 3) {
+            *rng.pick(&["all", "eachquorum"])
+        } else {
+            *rng.pick(&["q", "q", "all"])
+        };
+        // where policy and consistency are configured (statement / session profile / statement's profile handle /
+        // statement with decoys on both profiles)
+        let cfg = if via == "caching" { "stmt" } else { *rng.pick(&["stmt", "stmt", "profile", "handle", "both"]) };
+        let pages = 2 + rng.below(3);
+        // a request timeout (statement- or profile-level) against an answer that takes 400 ms
+        let tmo = if via == "session" && rng.chance(1, 6) { Some((*rng.pick(&[100u64, 150, 1500]), *rng.pick(&["stmt", "profile"]))) } else { None };
+        let n_req = if tmo.is_some() { 2 } else { 3 + rng.below(3) };
         let mut scripts = Vec::new();
         for _ in 0..n_req {
-            let len = 1 + rng.below(n + 4);
+            let len = 1 + rng.below(n + 4) + if iter_kind { pages } else { 0 };
             let mut sv: Vec<&str> = Vec::new();
+            let mut oks = 0;
             for k in 0..len {
                 let o = if k + 1 == len && rng.bool() {
                     "ok"
-                } else if rng.chance(2, 5) {
+                } else if iter_kind && rng.chance(2, 5) {
+                    "ok"
+                } else if tmo.is_some() && rng.chance(1, 3) {
+                    "slow"
+                } else if rng.chance(1, 3) && !(iter_kind && kind == "iterq") {
                     if rng.chance(1, 5) { "unpx" } else { "unp" }
                 } else if rng.chance(1, 2) {
                     *rng.pick(&["un", "bs", "rt", "rtd"])
                 } else {
-                    *rng.pick(&["ov", "se", "tr", "wt", "wtb", "inv", "cl", "un", "bs"])
+                    *rng.pick(&["ov", "se", "tr", "wt", "wtb", "inv", "cl", "un", "bs", "gres", "gerr", "gsup"])
                 };
+                // a closed connection leaves that node's pool empty for an unknown time: which targets of the NEXT page's
+                // plan have a connection is then a matter of timing - not scripted for the pagers in the compared cases
+                // (the oracle-only `e2e retry` cases do it)
+                let o = if iter_kind && o == "cl" { "se" } else { o };
                 sv.push(o);
-                if o == "ok" {
-                    break;
+                if o == "ok" || o == "slow" {
+                    oks += 1;
+                    if oks >= if iter_kind { pages } else { 1 } {
+                        break;
+                    }
                 }
             }
             let mut sc = sv.join(".");
@@ -1625,14 +1672,23 @@ pub fn generate(rng: &mut Rng, tier: Tier, emit: &mut dyn FnMut(String)) {
             // PREPARE of qvals / batchv): ok with another id, errors, a closed connection
             if via == "session" && rng.chance(1, 2) {
                 let np = 1 + rng.below(4);
-                let pv: Vec<&str> = (0..np).map(|_| *rng.pick(&["p", "p", "p", "pc", "pov", "pbs", "pcl"])).collect();
+                let pv: Vec<&str> =
+                    (0..np).map(|_| *rng.pick(&["p", "p", "p", "pc", "pov", "pbs", "pcl"])).map(|p| if iter_kind && p == "pcl" { "pov" } else { p }).collect();
                 sc = format!("{}~{}", sc, pv.join("."));
             }
             scripts.push(sc);
         }
+        let extra = format!(
+            "{}{}",
+            if iter_kind { format!(" pages={}", pages) } else { String::new() },
+            match tmo {
+                Some((t, at)) => format!(" tmo={} tmoat={}", t, at),
+                None => String::new(),
+            }
+        );
         emit(format!(
-            "wire retry n={} sh=0 pol={} idem={} kind={} cl={} via={} seed={} scripts={}",
-            n, pol, idem, kind, cl, via, rng.below(1 << 32), scripts.join("/")
+            "wire retry n={} sh=0 pol={} idem={} kind={} cl={} via={} cfg={}{} seed={} scripts={}",
+            n, pol, idem, kind, cl, via, cfg, extra, rng.below(1 << 32), scripts.join("/")
         ));
     }
 
